@@ -2,6 +2,7 @@ package rules
 
 import (
 	"fmt"
+	"go/constant"
 	"go/token"
 	"go/types"
 	"strings"
@@ -352,6 +353,44 @@ func C02(p *core.Program, r *core.Report) {
 	}
 	r.Count("rule guards", len(guards))
 	r.Min("rule guards", 15)
+	// every regular expression the endpoint code compiles is a whole-string
+	// matcher: its constant pattern is anchored at both ends, so MatchString /
+	// FindStringSubmatch cannot accept a string with a valid substring only.
+	nre := 0
+	scan := func(f *ssa.Function) {
+		core.EachInstrDeep(f, func(g *ssa.Function, in ssa.Instruction) {
+			cc, ok := in.(*ssa.Call)
+			if !ok {
+				return
+			}
+			cn := core.CalleeName(cc)
+			if !core.NameIs(cn, "regexp.MustCompile") && !core.NameIs(cn, "regexp.Compile") {
+				return
+			}
+			nre++
+			key := "regexp-anchored/" + fname(g)
+			k, isC := core.CallArgs(cc)[0].(*ssa.Const)
+			if !isC || k.Value == nil || k.Value.Kind() != constant.String {
+				r.Unknown(key, "the pattern compiled here is a constant", p.Pos(cc.Pos()), "pattern is not a compile-time constant")
+				return
+			}
+			pat := constant.StringVal(k.Value)
+			key += "/" + pat
+			head := strings.HasPrefix(pat, "^") || strings.HasPrefix(pat, `\A`)
+			tail := (strings.HasSuffix(pat, "$") && !strings.HasSuffix(pat, `\$`)) || strings.HasSuffix(pat, `\z`)
+			r.Check(head && tail, key, "an endpoint regular expression is anchored at both ends (^…$), so it decides the whole string", p.Pos(cc.Pos()), "", "pattern is not anchored at both ends: a string merely containing a match is accepted")
+		})
+	}
+	for _, f := range p.RepoFuncs() {
+		if f.Pkg == p.Pkg(bp7) && f.Parent() == nil {
+			scan(f)
+		}
+	}
+	if initFn := p.Pkg(bp7).Func("init"); initFn != nil {
+		scan(initFn)
+	}
+	r.Count("endpoint regexps", nre)
+	r.Min("endpoint regexps", 3)
 	// IsExceeded is Count > Limit
 	ie := p.Func(bp7, "HopCountBlock", "IsExceeded")
 	okIE := false
